@@ -10,6 +10,7 @@ import (
 
 	"github.com/shiwano/errdef"
 	"github.com/shiwano/errdef/resolver"
+	"github.com/shiwano/errdef/unmarshaler"
 )
 
 func init() {
@@ -279,7 +280,39 @@ func runC04(p []PStmt, salt uint64) Case {
 			notes = append(notes, "mutating the slice given to resolver.New changed ResolveFieldFunc")
 		}
 	}
-	coq := fmt.Sprintf("{| c_prog := %s; c_steps := %s; c_details := %s; c_resolver := %s |}", w.coqProg(), cList(steps), cBool(detailsOK), cBool(resolverOK))
+	// restored errors are errors too: the JSON round trip of every errdef error of the history
+	// through a resolver whose definitions carry no fields (so every field arrives as an unknown,
+	// convertible field), then every kind of inspection - typed extractors through the original
+	// keys, Fields().Get, FindKeys, renderers - must leave the restored error as it was
+	restoredOK := true
+	c04Default := errdef.Define("c04-default", errdef.NoTrace())
+	for i, e := range w.errs {
+		de, ok := e.(errdef.Error)
+		if !ok || e == nil {
+			continue
+		}
+		if _, isDef := e.(errdef.Definition); isDef {
+			continue
+		}
+		func() {
+			defer func() { _ = recover() }()
+			b, err := json.Marshal(de)
+			if err != nil {
+				return
+			}
+			r, err := unmarshaler.NewJSON(resolver.New().WithDefault(c04Default)).Unmarshal(b)
+			if err != nil {
+				return
+			}
+			s0 := w.snapErr(r)
+			inspectRestored(r, 0)
+			if s1 := w.snapErr(r); s1 != s0 {
+				restoredOK = false
+				notes = append(notes, fmt.Sprintf("inspecting the restored copy of error %d changed it: %s -> %s", i, s0, s1))
+			}
+		}()
+	}
+	coq := fmt.Sprintf("{| c_prog := %s; c_steps := %s; c_details := %s; c_resolver := %s; c_restored := %s |}", w.coqProg(), cList(steps), cBool(detailsOK), cBool(resolverOK), cBool(restoredOK))
 	o := fmt.Sprintf("%d steps", len(steps))
 	if len(notes) > 0 {
 		o += "; " + strings.Join(notes, "; ")
